@@ -351,6 +351,23 @@ def c17_pk(F, T):
                         cnt += 1
                         if cnt == need:
                             starts.append(ev[1])
+        if cls == "Combiner":
+            # one unit of work at a time: packing the k-th pallet cannot start before the (k-1)-th has left (been pushed, or dropped by a non-blocking
+            # combiner - a drop happens at the instant processing ends); while its push is blocked the combiner is BLOCKED, not PROCESSING
+            outs = [ev[1] for ev in F.events if ev[0] == "put" and ev[3] is n]
+            adj = []
+            prev_end = None
+            for k, t0 in enumerate(starts):
+                if prev_end is not None and ctx.lt(t0, prev_end):
+                    t0 = prev_end
+                adj.append(t0)
+                if n.blocking:
+                    prev_end = outs[k] if k < len(outs) else T
+                else:
+                    prev_end = t0 + d
+                    if k < len(outs) and ctx.lt(prev_end, outs[k]):
+                        prev_end = outs[k]
+            starts = adj
         for t0 in starts:
             if ctx.le(T, t0):
                 continue
